@@ -217,9 +217,10 @@ def check_C09(tier):
 # ---------------------------------------------------------------------------
 # C10: fault enumeration over the position of the failing target call
 # ---------------------------------------------------------------------------
-VAL_FAULTS = ["exception", "exception2", "nan", "nan0d", "inf", "-inf", "complex", "vector", "none"]
+VAL_FAULTS = ["exception", "exception2", "nan", "nan0d", "inf", "-inf", "complex", "vector", "none",
+              "complex_arr", "complex0d", "complex_np", "inf_arr"]
 SPEC_FAULTS = ["exception", "exception2", "pair_nan", "pair_inf", "not_pair", "triple", "sd_zero", "sd_neg",
-               "sd_nan", "sd_inf", "sd_zero_arr", "none"]
+               "sd_nan", "sd_inf", "sd_zero_arr", "none", "pair_complex_arr", "sd_complex_arr", "sd_neg_arr"]
 
 
 def _c10_bases():
